@@ -1,21 +1,23 @@
 """Configuration of ./check C01 (see lib/registry.py for the fields)."""
 CFG = dict(
-    claim="PARTIAL. Model: coq/Model/Sys.v = the product of the client model (Model/Client.v) and the server-connection model "
-          "(Model/Server.v) joined by two reliable FIFO wires; all label sequences (any number of calls and streams, any interleaving "
-          "of user actions, internal rules, handler steps and wire transfers), unary handlers returning f(request) for an arbitrary f. "
-          "Proved in coq/Props/C01.v: C01_projection_client / C01_projection_server (every system run is a run of each component model, "
-          "so the component invariants of work packages cl and sv hold inside the system), C01_wire_c2s / C01_wire_s2c (what a side has "
-          "read is a prefix of what the other wrote: nothing lost, duplicated, reordered, altered or fabricated in transit), "
-          "C01_request_exact (a unary call's only write is its own id + payload) and C01_pairing_partial (every successful unary call "
-          "returned f(its own payload)) - the latter with ONE explicit premise about the server model alone, "
-          "Proofs/SysC01.v server_fact_reply_origin (every body-carrying frame the server writes is the reply of a handler whose "
-          "request frame, with the same id, was read from the transport), which is stated but not yet proved. Not proved: exactly-once "
-          "/ no-fabrication / completeness clauses at handler level. The tie: the boolean predicates spec_c01 of coq/Check/C01c.v "
-          "(pairing, exactly one result, handler exactly once with the caller's request, reply as produced, wire ids distinct and "
-          "echoed) are evaluated on every history recorded from the REAL client connection + server; the component models are tied "
-          "lock-step to the code by ./check CL and ./check SV (not by this check).",
+    claim="Model: coq/Model/Sys.v = the product of the client model (Model/Client.v) and the server-connection model "
+          "(Model/Server.v) joined by two reliable FIFO wires; ALL label sequences (any number of calls and streams, any interleaving "
+          "of user actions, internal rules of both components, handler steps and wire transfers), unary handlers returning f(request) "
+          "for an arbitrary function f on payload tokens. Theorems of coq/Props/C01.v, all at full strength: C01_pairing (every "
+          "successful unary call returned f(its own payload)), C01_exactly_once (the server's handler-invocation log has exactly one "
+          "unary entry with the id of a returned call), C01_no_fabrication (every unary handler invocation belongs to exactly one call, "
+          "a unary one, and was given that call's payload), C01_never_two (at most one result per call), C01_complete (Q-form: in a "
+          "quiescent state - both components quiescent, both wires empty, no handler at its gate - reached without an injected fault "
+          "by Invoke programs, every call has returned); plus the structural theorems C01_projection_client / C01_projection_server "
+          "(every system run is a run of each component model), C01_wire_c2s / C01_wire_s2c (what a side has read is a prefix of what "
+          "the other wrote: nothing lost, duplicated, reordered, altered or fabricated in transit), C01_request_exact and "
+          "C01_server_reply_origin. The Proxy / Demux topologies are covered in the model by C16 / C18 (they refine a FIFO wire) and "
+          "on the real code by running the rig through the real Proxy and Demux. The tie: the boolean predicates spec_c01 of "
+          "coq/Check/C01c.v (pairing, exactly one result, handler exactly once with the caller's request, reply as produced, wire ids "
+          "distinct and echoed) are evaluated on every history recorded from the REAL client connection + server; the two component "
+          "models are tied lock-step to the code by ./check CL and ./check SV (not by this check).",
     props="Props/C01.v",
-    theorems=["C01_projection_client", "C01_projection_server", "C01_wire_c2s", "C01_wire_s2c", "C01_request_exact", "C01_server_reply_origin", "C01_pairing", "C01_exactly_once", "C01_no_fabrication", "C01_never_two"],
+    theorems=["C01_projection_client", "C01_projection_server", "C01_wire_c2s", "C01_wire_s2c", "C01_request_exact", "C01_server_reply_origin", "C01_pairing", "C01_exactly_once", "C01_no_fabrication", "C01_never_two", "C01_complete"],
     imports=["Check.SysC", "Check.C01c"],
     case_type="c01case",
     find_bad_from="find_bad_from",
